@@ -43,8 +43,10 @@ def hx(s):
     return s.encode().hex()
 
 def gen_hist(rng, dist):
-    profile = rng.choice(["mix", "mix", "cap", "cap", "merge", "merge", "seeky"])
+    profile = rng.choice(["mix", "mix", "cap", "cap", "cap", "merge", "merge", "seeky"])
     n = rng.choice([0, 1, 2, 3, 5, 8, 13, 19, 20, 21, 22, 25, 30, 40, 41, 45, 59, 60, rng.randint(0, 60), rng.randint(0, 60)])
+    if profile == "cap":
+        n = rng.choice([21, 25, 30, 40, 41, 45, 50, 59, 60, rng.randint(20, 60)])
     na = {"mix": rng.randint(2, 5), "cap": rng.randint(3, 8), "merge": rng.randint(2, 3), "seeky": rng.randint(2, 4)}[profile]
     pool = rng.sample(SHORT, na)
     r = rng.random()
@@ -55,11 +57,22 @@ def gen_hist(rng, dist):
     types = {a: rng.choice("ifc") for a in pool}
     counter = {a: rng.choice(SPECIAL) for a in pool}
     ops = []
-    for _ in range(n):
+    # cap profile: records separated by >2 s (no merging) so that the 20-event cap is reached and
+    # crossed, with undo + record at and around the cap
+    pr, pt = {"mix": (0.55, 0.2), "cap": (0.86, 0.04), "merge": (0.6, 0.3), "seeky": (0.4, 0.15)}[profile]
+    used = set()        # cap profile: addresses recorded since the last clock step > 2 s
+    while len(ops) < n:
         x = rng.random()
-        pr, pt = {"mix": (0.55, 0.2), "cap": (0.75, 0.12), "merge": (0.6, 0.3), "seeky": (0.4, 0.15)}[profile]
         if x < pr:
             a = rng.choice(pool)
+            if profile == "cap" and rng.random() < 0.93:
+                free = [b for b in pool if b not in used]
+                if not free:
+                    ops.append("t:%d" % rng.choice([3, 3, 3, 4, 10]))
+                    used = set()
+                    free = pool
+                a = rng.choice(free)
+            used.add(a)
             old = counter[a] if rng.random() < 0.7 else rng.choice(SPECIAL)
             new = rng.choice(SPECIAL) if rng.random() < 0.3 else (old + rng.randint(1, 9)) & 0xffffffff
             counter[a] = new
@@ -67,36 +80,52 @@ def gen_hist(rng, dist):
         elif x < pr + pt:
             if profile == "cap":
                 d = rng.choice([0, 1, 2, 3, 3, 3, 4, 10])
+                if d > 2:
+                    used = set()
             else:
                 d = rng.choice([0, 0, 1, 1, 1, 2, 2, 3, 3, 4, 100])
             ops.append("t:%d" % d)
         else:
-            k = rng.choice([-1, -1, -1, 1, 1, -2, 2, -3, 3, 0, -5, 5, -19, -20, -21, 20, 21, -60, 60,
-                            -2147483648, 2147483647, -2147483647, rng.randint(-25, 25)])
+            if profile == "cap":
+                k = rng.choice([-1, -1, -1, -2, -2, 1, -3, 2, -19, -20, -21, 20, 21, 0, rng.randint(-25, 25)])
+            else:
+                k = rng.choice([-1, -1, -1, 1, 1, -2, 2, -3, 3, 0, -5, 5, -19, -20, -21, 20, 21, -60, 60,
+                                -2147483648, 2147483647, -2147483647, rng.randint(-25, 25)])
             ops.append("s:%d" % k)
+    case = "hist " + (",".join(ops) if ops else "-")
     dist["hist/" + profile] = dist.get("hist/" + profile, 0) + 1
     dist["hist/len%02d-%02d" % (n // 10 * 10, n // 10 * 10 + 9)] = dist.get("hist/len%02d-%02d" % (n // 10 * 10, n // 10 * 10 + 9), 0) + 1
-    return "hist " + (",".join(ops) if ops else "-")
+    for ft in predict(case)[1]:
+        dist["hist/with-" + ft] = dist.get("hist/with-" + ft, 0) + 1
+    return case
 
 def gen_e2e(rng, dist):
     n = rng.choice([1, 2, 3, 5, 8, 13, 21, 25, 30, 45, 60, rng.randint(0, 60)])
     ports = rng.choice([["b", "i"], ["b", "i", "j"], ["i", "j"], ["b"]])
     ops = []
-    for _ in range(n):
+    spaced = rng.random() < 0.35        # changes more than 2 s apart: no merging, the cap is reached
+    if spaced:
+        n = rng.choice([30, 45, 50, 60])
+    while len(ops) < n:
         x = rng.random()
-        if x < 0.55:
+        if x < (0.8 if spaced else 0.55):
             p = rng.choice(ports)
             v = rng.randint(0, 5) if rng.random() < 0.5 else (rng.randint(0, 120) if p == "b" else
                                                               rng.choice([-1, -2147483648, 2147483647, rng.randint(-1000, 1000)]))
             ops.append("c:%s:%d" % (p, v))
+            if spaced and rng.random() < 0.6:
+                ops.append("t:3")
         elif x < 0.75:
             ops.append("t:%d" % rng.choice([0, 1, 1, 2, 2, 3, 3, 4, 50]))
         else:
             ops.append("s:%d" % rng.choice([-1, -1, 1, 1, -2, 2, -3, 3, 0, -21, 21, -99, 99, rng.randint(-25, 25)]))
     if rng.random() < 0.7:
         ops += ["s:-99", "s:99"] if rng.random() < 0.7 else ["s:99", "s:-99"]
+    case = "e2e " + (",".join(ops) if ops else "-")
     dist["e2e"] = dist.get("e2e", 0) + 1
-    return "e2e " + (",".join(ops) if ops else "-")
+    for ft in predict(case)[1]:
+        dist["e2e/with-" + ft] = dist.get("e2e/with-" + ft, 0) + 1
+    return case
 
 def gen(rng, tier, dist):
     nh, ne = (2500, 700) if tier == "quick" else (120000, 30000)
@@ -131,6 +160,8 @@ class Ref:
                 self.feat.add("merge-not-newest")
             return "merge"
         self.ev.append(dict(t=self.now, a=a, ty=ty, old=old, new=new))
+        if len(self.ev) == CAP:
+            self.feat.add("full")
         if len(self.ev) > CAP:                  # only the 20 most recent events are retained
             del self.ev[0]
             self.feat.add("cap")
